@@ -353,12 +353,20 @@ def calibration_seams(sim: sched.Sim):
     ad.ThreadPoolExecutor = sched.SimExecutor
     ad.ArchipelagoDataTree._build = build
     ud.DaskIsland.run_evolve = run_evolve
+    # any other waiting primitive of concurrent.futures the module may have bound by name
+    extra = {}
+    for name, repl in (("as_completed", sched.sim_as_completed), ("wait", sched.sim_wait)):
+        if hasattr(ad, name):
+            extra[name] = getattr(ad, name)
+            setattr(ad, name, repl)
     try:
         yield
     finally:
         ad.ThreadPoolExecutor = saved_exec
         ad.ArchipelagoDataTree._build = saved_build
         ud.DaskIsland.run_evolve = saved_evolve
+        for name, orig in extra.items():
+            setattr(ad, name, orig)
 
 
 def run_calibration(scn: dict, *, simulate: bool = True, forced=None, compute_simulated: bool = False) -> dict:
